@@ -40,7 +40,7 @@ Definition reachable_old (cfg : config) (s : state) : Prop :=
 
 (** transfer 1000 with call data [cd]; receive on chain 1; acknowledge on chain 0 *)
 Definition witness (cd : calldata) : list op :=
-  [Transfer 0 0 1 1000 1 (Some (User 1)) cd CbNone 1 0; Recv 0 1 1; Ack 0 1 1].
+  [Transfer 0 0 1 1000 1 (Some (User 1)) cd false 1 0; Recv 0 1 1; Ack 0 1 1].
 
 Lemma witness_breaks cd :
   cd = CdRevert \/ cd = CdHookFail ->
